@@ -1,1 +1,144 @@
-(* placeholder *)
+(* C15  Route counters and prefix limits match the RIB.  Statements only: each
+   theorem is closed by [exact], pinned by [Check] and followed by
+   [Print Assumptions].
+
+   Vocabulary (Spec/RibSpec.v): [recv_recount t a] = prefixes for which peer [a]
+   has a path, [acc_recount t a] = paths of [a] that passed import policy,
+   [sess_recount t c] = prefixes for which session (Source) [c] has a path,
+   [ctr_of t c] the prefix-limit counter of session [c], [t_bad] = a statistics
+   decrement underflowed (debug panic / release wrap),
+   [Known_C15_two_sessions a shard ops] = the input class of the open finding
+   C15-session-counter (a session of peer [a] acts while the RIB still holds
+   paths of another session of [a]). *)
+From Coq Require Import List NArith ZArith Bool.
+From RB Require Import Base.Val Model.Rib Spec.RibSpec Proofs.RibInv Proofs.RibC02 Proofs.RibC15 Proofs.RibC15L.
+Import ListNotations.
+Open Scope N_scope.
+
+(* After any history no prefix with no paths is held as a destination. *)
+Theorem no_empty_destination :
+  forall shard ops net d,
+    In (net, d) (t_dests (run (empty_table shard) ops)) -> d_entries d <> [].
+Proof. exact C15_no_empty_destination. Qed.
+Check no_empty_destination :
+  forall shard ops net d,
+    In (net, d) (t_dests (run (empty_table shard) ops)) -> d_entries d <> [].
+Print Assumptions no_empty_destination.
+
+(* After any history the per-peer received / accepted statistics equal the recount;
+   a peer without a statistics entry has no path in the RIB. *)
+Theorem stats_eq_recount :
+  forall shard ops a,
+    let t := run (empty_table shard) ops in
+    match alookup a (t_stats t) with
+    | Some (r, c) => r = recv_recount t a /\ c = acc_recount t a
+    | None => recv_recount t a = 0 /\ acc_recount t a = 0
+    end.
+Proof. exact C15_stats_eq_recount. Qed.
+Check stats_eq_recount :
+  forall shard ops a,
+    let t := run (empty_table shard) ops in
+    match alookup a (t_stats t) with
+    | Some (r, c) => r = recv_recount t a /\ c = acc_recount t a
+    | None => recv_recount t a = 0 /\ acc_recount t a = 0
+    end.
+Print Assumptions stats_eq_recount.
+
+(* No statistics decrement ever underflows (no debug panic, no release wrap), and
+   remove never meets a missing statistics entry. *)
+Theorem no_counter_underflow :
+  forall shard ops, t_bad (run (empty_table shard) ops) = false.
+Proof. exact C15_no_counter_underflow. Qed.
+Check no_counter_underflow :
+  forall shard ops, t_bad (run (empty_table shard) ops) = false.
+Print Assumptions no_counter_underflow.
+
+(* Table::state recounts on demand (destinations, paths, accepted are computed from
+   the RIB in the model as in the code); what needs proof is that the destination
+   total counts only prefixes that have a path. *)
+Theorem table_totals_eq_recount :
+  forall shard ops,
+    let t := run (empty_table shard) ops in
+    N.of_nat (length (t_dests t)) = N.of_nat (length (filter (fun nd => negb (match d_entries (snd nd) with [] => true | _ => false end)) (t_dests t))).
+Proof. exact C15_table_totals_eq_recount. Qed.
+Check table_totals_eq_recount :
+  forall shard ops,
+    let t := run (empty_table shard) ops in
+    N.of_nat (length (t_dests t)) = N.of_nat (length (filter (fun nd => negb (match d_entries (snd nd) with [] => true | _ => false end)) (t_dests t))).
+Print Assumptions table_totals_eq_recount.
+
+(* Open finding C15-session-counter, witness corpus/C15/known-session-counter.json:
+   a well-formed, disciplined history in the known class after which the new
+   session's counter is 2^64-1 while the session holds no prefix, and the next new
+   prefix is rejected as over the limit. *)
+Theorem limit_counter_refuted :
+  exists shard ops f mx c,
+    Forall (op_wf f) ops /\ Forall (ctr_disciplined f mx) ops /\ mx c < 4294967296
+    /\ session_alive (f c) c false ops = true
+    /\ Known_C15_two_sessions (f c) shard ops
+    /\ ctr_of (run (empty_table shard) ops) c = 18446744073709551615
+    /\ sess_recount (run (empty_table shard) ops) c = 0
+    /\ snd (step (run (empty_table shard) ops)
+                 (Insert (ex_src 11 1 9 0) 2 0 (Some 1) kf_attr false false (Some (mx c, c)))) = true.
+Proof. exact C15_limit_counter_refuted. Qed.
+Check limit_counter_refuted :
+  exists shard ops f mx c,
+    Forall (op_wf f) ops /\ Forall (ctr_disciplined f mx) ops /\ mx c < 4294967296
+    /\ session_alive (f c) c false ops = true
+    /\ Known_C15_two_sessions (f c) shard ops
+    /\ ctr_of (run (empty_table shard) ops) c = 18446744073709551615
+    /\ sess_recount (run (empty_table shard) ops) c = 0
+    /\ snd (step (run (empty_table shard) ops)
+                 (Insert (ex_src 11 1 9 0) 2 0 (Some 1) kf_attr false false (Some (mx c, c)))) = true.
+Print Assumptions limit_counter_refuted.
+
+(* Outside the known class: while a session is alive its prefix-limit counter equals
+   the number of prefixes it holds, and that number never exceeds the configured
+   maximum (an insert that would exceed it is rejected with PrefixLimitExceeded and
+   installs nothing). *)
+Theorem limit_respected_outside_known :
+  forall f mx shard ops c,
+    Forall (op_wf f) ops -> Forall (ctr_disciplined f mx) ops -> mx c < 4294967296 ->
+    session_alive (f c) c false ops = true ->
+    ~ Known_C15_two_sessions (f c) shard ops ->
+    let t := run (empty_table shard) ops in
+    ctr_of t c = sess_recount t c /\ sess_recount t c <= mx c.
+Proof. exact C15_limit_respected_outside_known. Qed.
+Check limit_respected_outside_known :
+  forall f mx shard ops c,
+    Forall (op_wf f) ops -> Forall (ctr_disciplined f mx) ops -> mx c < 4294967296 ->
+    session_alive (f c) c false ops = true ->
+    ~ Known_C15_two_sessions (f c) shard ops ->
+    let t := run (empty_table shard) ops in
+    ctr_of t c = sess_recount t c /\ sess_recount t c <= mx c.
+Print Assumptions limit_respected_outside_known.
+
+(* An insert answered with PrefixLimitExceeded leaves the table exactly as it was
+   (nothing installed, no empty destination, no id consumed): together with the
+   previous theorem, a session never holds more than its maximum, and the only
+   inserts that do not take effect are the signalled ones. *)
+Theorem limit_rejection_installs_nothing :
+  forall t s net rpid nh a filt nhinv lim,
+    snd (step t (Insert s net rpid nh a filt nhinv lim)) = true ->
+    fst (fst (step t (Insert s net rpid nh a filt nhinv lim))) = t.
+Proof. exact C15_limit_rejection_installs_nothing. Qed.
+Check limit_rejection_installs_nothing :
+  forall t s net rpid nh a filt nhinv lim,
+    snd (step t (Insert s net rpid nh a filt nhinv lim)) = true ->
+    fst (fst (step t (Insert s net rpid nh a filt nhinv lim))) = t.
+Print Assumptions limit_rejection_installs_nothing.
+
+(* Table::remove unwraps the peer's statistics entry: whenever it finds the path to
+   remove, the entry exists (no panic on a missing entry). *)
+Theorem remove_finds_stats :
+  forall shard ops s net rpid d removed,
+    let t := run (empty_table shard) ops in
+    alookup net (t_dests t) = Some d -> find (same_key s rpid) (d_entries d) = Some removed ->
+    alookup (s_addr s) (t_stats t) <> None.
+Proof. exact C15_remove_finds_stats. Qed.
+Check remove_finds_stats :
+  forall shard ops s net rpid d removed,
+    let t := run (empty_table shard) ops in
+    alookup net (t_dests t) = Some d -> find (same_key s rpid) (d_entries d) = Some removed ->
+    alookup (s_addr s) (t_stats t) <> None.
+Print Assumptions remove_finds_stats.
